@@ -118,7 +118,7 @@ func gen(max int) (toks []hx.JTok, d *spec.Doc, end int) {
 			id := d.Add(parent, spec.Node{Kind: spec.Elem, Local: "#arr"})
 			stack = append(stack, frame{node: id, holder: id})
 		case cStr:
-			s := asciiText(1 - nd.Choice(1+nd.Tier()))
+			s := asciiText(nd.Choice(2)) // the empty string is a value too
 			toks = append(toks, hx.JTok{Kind: hx.JStr, S: s})
 			d.Add(parent, spec.Node{Kind: spec.Text, Value: s})
 			valueDone()
